@@ -146,11 +146,21 @@ Theorem validate_documented_conversion :
 Proof. exact documented_conversion_lemma. Qed.
 Print Assumptions validate_documented_conversion.
 
-(* TraitError leaves every attribute as it was — unconditionally *)
+(* TraitError leaves every attribute as it was — for every trait that is not a stand-alone Map / PrefixMap. Since
+   c056106 those raise TraitError("Unmappable") from post_setattr, i.e. AFTER the value was stored; validated values never
+   get there (exception_no_effect below), the Undefined sentinel does (F22): reject_no_effect_refuted_undefined_on_map *)
 Theorem reject_no_effect :
-  forall E c s n v s', setattr E c s n v = (s', Raise ETraitError) -> s' = s.
+  forall E c s n v s', (forall d dflt, trait_of c n = Some (d, dflt) -> is_mapped d = false) ->
+    setattr E c s n v = (s', Raise ETraitError) -> s' = s.
 Proof. exact setattr_traiterror_no_effect. Qed.
 Print Assumptions reject_no_effect.
+
+Theorem reject_no_effect_refuted_undefined_on_map :
+  let c := [(0, (DMap [(PStr [97], PInt 1)], PStr [97]))] in
+  let s := [(0, PStr [97]); (shadow 0, PInt 1)] in
+  exists s', setattr E0 c s 0 PUndefined = (s', Raise ETraitError) /\ s' <> s.
+Proof. exact setattr_traiterror_effect_on_map. Qed.
+Print Assumptions reject_no_effect_refuted_undefined_on_map.
 
 (* any exception (TraitError or one of the value's own protocol) leaves every attribute as it
    was, provided mapped defaults are keys (post_safe; it also still asks that no Map sits inside an Either, which is
